@@ -106,12 +106,29 @@ class C14(Spec):
                    "paths for sonic.Get* use indexes >= 0 (documented precondition: a negative index panics)",
                    "Raw() is compared as the value it denotes and byte-for-byte up to trailing white space"]
 
+    @staticmethod
+    def _consts_word():
+        """MAX_RECURSE*100 + _DEFAULT_NODE_CAP as re-read from the source by factx (Generated/Consts.lean)"""
+        import os
+        from .. import core
+        vals = {"maxRecurse": 4096, "astDefaultNodeCap": 16}
+        try:
+            src = open(os.path.join(core.LEAN, "SonicSpec", "Generated", "Consts.lean")).read()
+            for k in list(vals):
+                m = re.search(r"def %s : Int := (\d+)" % k, src)
+                if m:
+                    vals[k] = int(m.group(1))
+        except OSError:
+            pass
+        return vals["maxRecurse"] * 100 + min(vals["astDefaultNodeCap"], 99)
+
     def streams(self, tier, seed):
         envs = {"default": {}, "noavx2": {"SONIC_MODE": "noavx2"}}
         q = tier == "quick"
         return [
             Stream("seq", "c14.seq", 300 if q else 20000, envs=envs, timeout=0.2),
             Stream("wide", "c14.wide", 0, envs=envs, timeout=2.0),         # fixed set: > MAX_RECURSE siblings, depth boundary
+            Stream("wideviews", "c14.wideviews", self._consts_word(), envs={"default": {}}, timeout=5.0),  # fixed set by tier
             Stream("get", "c14.get", 450 if q else 25000, envs=envs, timeout=0.2),
             Stream("sweep", "c14.sweep", 0, envs=envs, timeout=0.2),       # size fixed by the tier
             Stream("dup", "c14.dup", 120 if q else 6000, envs=envs, timeout=0.2),
@@ -355,7 +372,14 @@ class C14(Spec):
         return False
 
     # ------------------------------------------------------------------ plug-in interface
+    @staticmethod
+    def _as_get(case):
+        # c14wide <mask> <ckind> <child> <n> <path>  ->  the shape of a get case (document not on the line)
+        return ["get", case[1], "-", case[5]]
+
     def judge(self, case, sonic, model):
+        if case[0] == "c14wide":
+            return self._judge_get(self._as_get(case), sonic, model)
         if case[0] == "get":
             return self._judge_get(case, sonic, model)
         if case[0] == "pre":
@@ -365,6 +389,8 @@ class C14(Spec):
         return []
 
     def model_ref_disagree(self, case, sonic, model):
+        if case[0] == "c14wide":
+            return self._mr_get(self._as_get(case), sonic, model)
         if case[0] == "get":
             return self._mr_get(case, sonic, model)
         if case[0] == "pre":
@@ -374,6 +400,8 @@ class C14(Spec):
         return False
 
     def nontrivial(self, case, sonic, model):
+        if case[0] == "c14wide":
+            return int(case[4]) >= 2
         if case[0] == "get":
             return case[3] != "-"
         if case[0] == "pre" and case[1] != "-":
@@ -384,6 +412,8 @@ class C14(Spec):
         return False
 
     def shrink_fields(self, case):
+        if case[0] == "c14wide":
+            return []
         if case[0] == "c14seq":
             return [1] if case[1] != "-" else []
         return [2] if case[0] == "get" and len(case) > 2 and case[2] != "-" else ([1] if case[0] == "pre" and case[1] != "-" else [])
